@@ -38,12 +38,22 @@ theorem newer_wins (older : List Section) (t : Section) (n : Nat) (e : Entry)
   simp [mergeTables, List.flatten_append, getLast_append, h]
 
 /-- **getObject_refines**: from empty caches, for every finite sequence of `get`/`clearCache`
-operations, every `get n` returns exactly `specGet n`. -/
+operations, every `get n` returns exactly `specGet n`.
+
+Scope since the C02 repair 129dd3d (statement and proof unchanged — it is about the abstract
+`File`, in which `ParseIndirectObject` at an offset is a function of the file alone): that
+abstraction holds for the code as long as no lookup loads more than `maxNestedLoads` = 16
+objects inside each other (indirect `/Length` chains; every file conforming to ISO 32000-1 nests
+at most 3). Beyond that the code's answer at an offset depends on how deep the lookup stands
+and on the caches, and the statement is FALSE for the code:
+`C04NC.nested_cache_order_dependence_counterexample`; within the limit the caches on such
+chains are again order-free: `C04NC.nested_cache_order_free_partial`. -/
 theorem getObject_refines (f : File) (ops : List Op) :
     run f {} ops = specRun f ops := run_refines f ops {} (cacheOk_empty f)
 
 /-- **lookup_order_free**: whatever was looked up or cleared before, in whatever order and
-however often, `get n` answers `specGet n`. -/
+however often, `get n` answers `specGet n`. (Scope: as for `getObject_refines` — files whose
+lookups nest at most 16 loads.) -/
 theorem lookup_order_free (f : File) (before : List Op) (n : Nat) :
     (run f {} (before ++ [.get n])).getLast? = some (specGet f n) := by
   rw [getObject_refines]
